@@ -143,11 +143,45 @@ fn sweep(out: &mut Out, db: &InMemorySubstateDatabase, config: &ExecutionConfig,
     };
     points.sort();
     points.dedup();
-    for n in points {
-        let r = run_injected(db, config, executable, n);
-        let mut ev = project(db, &r, n);
-        ev["of"] = json!(n_calls);
-        out.emit(&ev);
+    // the sampled points first; then every place between two neighbouring sampled points where the receipt changes its
+    // class / the number of paying vaults / whether royalties are paid (e.g. rejection -> committed failure when the
+    // loan is repaid) is located exactly by bisection, and the injection points at and next to it are added
+    let mut seen = std::collections::BTreeMap::<u64, Value>::new();
+    let mut at = |n: u64, seen: &mut std::collections::BTreeMap<u64, Value>| -> Value {
+        if !seen.contains_key(&n) {
+            let r = run_injected(db, config, executable, n);
+            let mut ev = project(db, &r, n);
+            ev["of"] = json!(n_calls);
+            seen.insert(n, ev);
+        }
+        seen[&n].clone()
+    };
+    let sig = |e: &Value| (e["class"].clone(), e["paying"].clone(), e["royalties"].as_u64().unwrap_or(0) > 0);
+    for n in &points {
+        at(*n, &mut seen);
+    }
+    for w in points.windows(2) {
+        let (mut lo, mut hi) = (w[0], w[1]);
+        if hi - lo <= 1 || sig(&at(lo, &mut seen)) == sig(&at(hi, &mut seen)) {
+            continue;
+        }
+        let s_lo = sig(&at(lo, &mut seen));
+        while hi - lo > 1 {
+            let mid = (lo + hi) / 2;
+            if sig(&at(mid, &mut seen)) == s_lo {
+                lo = mid;
+            } else {
+                hi = mid;
+            }
+        }
+        for n in [lo.saturating_sub(1).max(1), hi + 1] {
+            if n <= n_calls {
+                at(n, &mut seen);
+            }
+        }
+    }
+    for ev in seen.values() {
+        out.emit(ev);
     }
     if abort_run {
         let mut c2 = config.clone();
@@ -170,7 +204,8 @@ pub fn run(mode: &str, args: &Args) {
             let every = args.u64("every", 1);
             let network = NetworkDefinition::simulator();
             let mut k = 0u64;
-            for_each_scenario_transaction(max, |db: &mut InMemorySubstateDatabase, validator: &radix_transactions::validation::TransactionValidator, label: &str, raw: &RawNotarizedTransaction| {
+            let also: Vec<String> = args.str("also", "").split(',').filter(|x| !x.is_empty()).map(|x| x.to_string()).collect();
+            for_each_scenario_transaction(max, &also, |db: &mut InMemorySubstateDatabase, validator: &radix_transactions::validation::TransactionValidator, label: &str, raw: &RawNotarizedTransaction| {
                 let executable = raw.validate(validator).expect("validates").create_executable();
                 let config = ExecutionConfig::for_notarized_transaction(network.clone());
                 k += 1;
